@@ -93,10 +93,10 @@ func RefKey(ext, root, p string) string { return ext + "|" + root + "|" + p }
 
 // RefOut is the expected behaviour of a fault-free scan.
 type RefOut struct {
-	Extracts map[string]int  // RefKey -> expected number of Extract calls
-	Soft     map[string]bool // RefKey of dispatch attempts whose outcome the statement does not fix (dangling / directory symlinks)
-	SoftExt  map[string]bool // extractors whose status is not asserted because of Soft entries
-	Reached  []string        // directories reached by a whole-tree walk (root 0), for the sub-directory law
+	Extracts map[string]int   // RefKey -> expected number of Extract calls
+	Soft     map[string]bool  // RefKey of dispatch attempts whose outcome the statement does not fix (dangling / directory symlinks)
+	SoftExt  map[string]bool  // extractors whose status is not asserted because of Soft entries
+	Reached  []string         // directories reached by a whole-tree walk (root 0), for the sub-directory law
 	Sizes    map[string]int64 // root|path -> size handed over
 }
 
